@@ -443,6 +443,18 @@ class Exec:
                     # a local variable that lives in memory: its name denotes the address
                     if x['comment'] not in found:
                         found[x['comment']] = ('dbg', {'k': 'reg', 'name': x['name'], 'type': x['type']}, True)
+        # a variable that lives in memory (go/ssa Alloc carrying its name) is always read through its cell, even
+        # where the nearest debug mention is the expression that initialised it
+        allocs = {}
+        for bi, blk_ in enumerate(blocks):
+            for x in blk_['instrs']:
+                if x['op'] == 'Alloc' and x.get('comment') and not x['comment'].startswith('(') and x['comment'] not in ('complit', 'new', 'makeslice', 'varargs', 'slicelit', 'maplit'):
+                    allocs.setdefault(x['comment'], []).append((bi, x))
+        for nm, lst in allocs.items():
+            if len(lst) == 1 and lst[0][0] in doms and nm in found and not found[nm][2]:
+                x = lst[0][1]
+                if found[nm][0] != 'phi':
+                    found[nm] = ('dbg', {'k': 'reg', 'name': x['name'], 'type': x['type']}, True)
         for p in self.fn['params'] + self.fn['freevars']:
             if p['name'] not in found:
                 found[p['name']] = ('param', {'k': 'param', 'name': p['name'], 'type': p['type']}, False)
